@@ -19,7 +19,7 @@ From Helm Require Props.Skeleton. (* effect skeleton tied to /repo by the transl
 From Coq Require Import List String Ascii Bool ZArith Permutation Sorted.
 From Helm Require Import Engine.Types Engine.Eff Engine.Ops Engine.Cluster Engine.Seq
   Engine.HooksProofsSort Engine.HooksProofsTrace Engine.HooksProofsOrder Engine.HooksProofsGate
-  Engine.HooksProofsExamples Engine.HookMeta Engine.HookMetaProofs Gen.Events.
+  Engine.HooksProofsExamples Engine.HookMeta Engine.HookMetaProofs Engine.HookTest Engine.HookTestProofs Gen.Events.
 From Helm Require Text.Classify.
 Import ListNotations.
 Local Open Scope string_scope.
@@ -455,3 +455,50 @@ Example C12_log_fetch_examples :
      = [LWatch "Job/hj" false; LFetch (LogByLabel "job-name=hj"); LOut].
 Proof. exact log_fetch_examples. Qed.
 Print Assumptions C12_log_fetch_examples.
+
+(* ------------------------------------------------------------------ *)
+(* helm test (Engine/HookTest.v: action.ReleaseTesting.Run)             *)
+
+(* [release_testing incl excl]  the effect program of `helm test` with the name / !name filters;
+   [test_split incl excl hs]    (hooks set aside, hooks handed to execHook);
+   [run K kh dresp f p s]       the interpreter of Engine/Seq.v under cluster handler kh. *)
+
+(* the filters only rearrange the hook list: what is set aside plus what is executed is the list *)
+Theorem C12_test_filters_rearrange :
+  forall incl excl hs,
+    Permutation (fst (test_split incl excl hs) ++ snd (test_split incl excl hs))%list hs.
+Proof. exact test_split_perm. Qed.
+Print Assumptions C12_test_filters_rearrange.
+
+(* C12_test_preserves_hooks — for every filter and EVERY behaviour of the cluster (every outcome of
+   the test hooks, refused creations and deletions included), when no storage write fails and the
+   process does not die, the stored history after `helm test` has the same revisions with the
+   same status, chart, values and manifest, and every revision has the same hooks (as a multiset of
+   hook records: resource, events, weight, policies) — so the hooks the next operation selects
+   are those the release had before the test *)
+Theorem C12_test_preserves_hooks :
+  forall (K : Type) (kh : forall e : eff, K -> K * resp e * list kev) (dresp : forall e : eff, resp e)
+         (incl excl : list string) (l : list release) (k : K),
+    NoDup (map rev l) ->
+    Forall2 (fun a b => rev b = rev a /\ st b = st a /\ chart_id b = chart_id a /\ config_id b = config_id a
+                        /\ manifest b = manifest a /\ Permutation (hooks b) (hooks a))
+            l (led (fst (run K kh dresp (mkSF None None) (release_testing incl excl) (mkR l k 0 0 false [])))).
+Proof. exact test_preserves_hooks. Qed.
+Print Assumptions C12_test_preserves_hooks.
+
+(* the hypothesis "no storage write fails" is needed (known finding K13, replayed on the real
+   code on every run): execHook records the release with the REDUCED hook list before creating
+   the test hook; when the final Update fails the reduced list stays in storage *)
+Example C12_test_final_write_fails_refuted :
+  map (fun r => map h_name (hooks r)) (w_led (fst (fst tf_world_after))) = [["ht"]]
+  /\ snd (fst tf_world_after) = OErr EOtherErr.
+Proof. exact test_final_write_fails_refuted. Qed.
+Print Assumptions C12_test_final_write_fails_refuted.
+
+(* the same run without the fault: both hooks kept (the skipped one first) *)
+Example C12_test_keeps_hooks_example :
+  map (fun r => map h_name (hooks r))
+      (w_led (fst (fst (run_test_op "rel" "default" ["ht"] [] (mkSF None None) (mkCF None None false) (mkW [tf_rel] [])))))
+  = [["hpre"; "ht"]].
+Proof. exact test_keeps_hooks_example. Qed.
+Print Assumptions C12_test_keeps_hooks_example.
